@@ -291,6 +291,114 @@ fn check_strings(ctx: &mut Ctx, rng: &mut Rng, number: u16, reps: usize) {
     }
 }
 
+/// 1029 on the wire: every admissible pair (characters n, bytes b), n <= 127, n <= b <= min(255, 4n), with 1-, 2-,
+/// 3- and 4-byte characters mixed so that the counts come out, the widest character last in half of the cases.
+/// The frame is written by the reference; the decoder must return the text, the encoder must reproduce the frame.
+fn check_1029_text_frame(ctx: &mut Ctx, text: &str) {
+    ctx.eval();
+    let n = text.chars().count();
+    let b = text.len();
+    let mut p = vec![0u8; 9 + b];
+    bits::write(&mut p, 0, 12, 1029);
+    bits::write(&mut p, 12, 12, 0x0AB);
+    bits::write(&mut p, 24, 16, 61_000);
+    bits::write(&mut p, 40, 17, 43_210);
+    bits::write(&mut p, layout::M1029_CHARS_BIT, 7, n as u128);
+    bits::write(&mut p, layout::M1029_BYTES_BIT, 8, b as u128);
+    p[9..].copy_from_slice(text.as_bytes());
+    let f = crc::frame(&p);
+    ctx.nontrivial(hash_bytes(&f));
+    let rp = || json!({"kind":"text_frame","text":text});
+    let d = match decode(&f) {
+        Ok(Some(d)) => d,
+        Ok(None) => {
+            ctx.violation("C15.reference_frame_rejected".into(), "C15.reference_frame_rejected", hex_short(&f), rp());
+            return;
+        }
+        Err(_) => {
+            ctx.count("decode_panics_left_to_C02");
+            return;
+        }
+    };
+    if d.number() != Some(1029) {
+        ctx.violation("C15.admissible_length_decodes|1029".into(), "C15.admissible_length_decodes", format!("1029 text of {} characters / {} bytes decodes to {}", n, b, msg_class(&d)), rp());
+        return;
+    }
+    let mut got: Option<String> = None;
+    if let Ok(mut v) = vtree::to_v(&d) {
+        walk_mut(&mut v, ("", ""), &mut |node, site, _| {
+            if site == Site::Str && got.is_none() {
+                if let V::Str(s) = node {
+                    got = Some(s.clone());
+                }
+            }
+        });
+    }
+    if got.as_deref() != Some(text) {
+        let g = got.unwrap_or_default();
+        ctx.violation(
+            format!("C15.text_survives|1029|{}", if g.len() < b { "shorter" } else if g.len() > b { "longer" } else { "different" }),
+            "C15.text_survives",
+            format!("1029 text of {} characters / {} bytes (last character U+{:04X}) decodes to {} characters / {} bytes", n, b, text.chars().last().map(|c| c as u32).unwrap_or(0), g.chars().count(), g.len()),
+            rp(),
+        );
+        return;
+    }
+    match build(&d) {
+        Err(_) => ctx.count("encode_panics_left_to_C09"),
+        Ok(Err(e)) => ctx.violation(format!("C15.admissible_length_encodes|1029|{}", e), "C15.admissible_length_encodes", format!("1029 text of {} characters / {} bytes refused by the encoder: {}", n, b, e), rp()),
+        Ok(Ok(f2)) => {
+            if f2 != f {
+                let cw = bits::read(&f2[3..], layout::M1029_CHARS_BIT, 7);
+                let bw = bits::read(&f2[3..], layout::M1029_BYTES_BIT, 8);
+                ctx.violation("C15.string_count_on_wire|1029".into(), "C15.string_count_on_wire", format!("1029 text of {} characters / {} bytes re-encodes to a different frame (character count field {}, byte count field {})", n, b, cw, bw), rp());
+            } else {
+                ctx.count("text_frames_1029_ok");
+            }
+        }
+    }
+}
+
+fn text_with_counts(rng: &mut Rng, n: usize, b: usize, widest_last: bool) -> String {
+    // widths 1..=4 per character summing to b
+    let mut w = vec![1usize; n];
+    let mut extra = b - n;
+    while extra > 0 {
+        let i = rng.usize_below(n);
+        if w[i] < 4 {
+            w[i] += 1;
+            extra -= 1;
+        }
+    }
+    if widest_last && n > 0 {
+        let (mi, _) = w.iter().enumerate().max_by_key(|(_, x)| **x).unwrap();
+        w.swap(mi, n - 1);
+    }
+    const ONE: [char; 4] = ['a', 'Z', '7', '~'];
+    const TWO: [char; 4] = ['\u{e9}', '\u{df}', '\u{3a9}', '\u{7ff}'];
+    const THREE: [char; 4] = ['\u{4e2d}', '\u{20ac}', '\u{800}', '\u{fffd}'];
+    const FOUR: [char; 5] = ['\u{1f6f0}', '\u{10000}', '\u{e0001}', '\u{100000}', '\u{10fffd}'];
+    w.iter()
+        .map(|k| match k {
+            1 => *rng.pick(&ONE),
+            2 => *rng.pick(&TWO),
+            3 => *rng.pick(&THREE),
+            _ => *rng.pick(&FOUR),
+        })
+        .collect()
+}
+
+fn check_1029_lengths(ctx: &mut Ctx, rng: &mut Rng, reps: usize) {
+    for n in 0..=127usize {
+        for b in n..=(4 * n).min(255) {
+            for rep in 0..reps.max(1).min(3) {
+                let t = text_with_counts(rng, n, b, rep == 0);
+                check_1029_text_frame(ctx, &t);
+            }
+        }
+    }
+}
+
 /// 1302: every number of database links 0..=7
 fn check_1302(ctx: &mut Ctx, rng: &mut Rng, reps: usize) {
     let base = (0..40).find_map(|_| {
@@ -425,6 +533,9 @@ pub fn run(p: &Params) -> Outcome {
                 return;
             }
             check_strings(ctx, &mut rng, n, reps.min(40));
+            if n == 1029 {
+                check_1029_lengths(ctx, &mut rng, reps);
+            }
             if layout::STR8_AT_24.contains(&n) {
                 for c in 32..=255usize {
                     for rep in 0..3 {
@@ -469,7 +580,7 @@ pub fn run(p: &Params) -> Outcome {
     }
     Outcome {
         ctx: total,
-        rule: "for each of the list-bearing messages (LayoutRef) and every n in 0..=capacity: reference-built frame with count n and zero/ones/random elements -> decode gives n elements -> re-encode reproduces the frame, count field == n, payload <= 1023; every count above capacity in a 1023-byte payload => Corrupt; every truncation 2..L-1 => Corrupt; strings of every length through the typed route with the length field read off the wire; non-trivial/distinct = distinct accepted frames (hash)".into(),
+        rule: "for each of the list-bearing messages (LayoutRef) and every n in 0..=capacity: reference-built frame with count n and zero/ones/random elements -> decode gives n elements -> re-encode reproduces the frame, count field == n, payload <= 1023; every count above capacity in a 1023-byte payload => Corrupt; every truncation 2..L-1 => Corrupt; strings of every length through the typed route with the length field read off the wire; 1029 frames for every admissible (characters, bytes) pair with 1..4-byte characters; non-trivial/distinct = distinct accepted frames (hash)".into(),
         exhaustive: false,
         extra: json!({"list_messages": LISTS.len()}),
     }
@@ -484,6 +595,7 @@ pub fn replay(_p: &Params, v: &Value) -> Outcome {
                 check_list_frame(&mut ctx, l, v["n"].as_u64().unwrap_or(0) as usize, &unhex(v["hex"].as_str().unwrap_or("")));
             }
         }
+        "text_frame" => check_1029_text_frame(&mut ctx, v["text"].as_str().unwrap_or("")),
         "corrupt_frame" => {
             expect_corrupt(&mut ctx, &unhex(v["hex"].as_str().unwrap_or("")), v["number"].as_u64().unwrap_or(0) as u16, "replay_expect_corrupt");
         }
